@@ -1,6 +1,8 @@
 package work
 
 import (
+	"bufio"
+	"bytes"
 	"fmt"
 	"time"
 	"unsafe"
@@ -229,6 +231,10 @@ func (c13) Cases(tier string, seed int64, kf *KnownFindings) []Case {
 		cs = append(cs, Case{Kind: "bad", N: ki, Count: len(ps) * 3, Sub: -1})
 	}
 	cs = append(cs, Case{Kind: "typed", Count: 8, Sub: -1})
+	for ki := range ks {
+		// deeper positions and two more entry points (destinations that have Flush), indexed on their own
+		cs = append(cs, Case{Kind: "deep", N: ki, Count: (len(deepPositions()) + len(ps)) * len(entryNames), Sub: -1})
+	}
 	return cs
 }
 
@@ -242,13 +248,57 @@ func c13encode(entry int, val interface{}) (b []byte, err error) {
 		e := hessian.NewEncoder(w, nameMap)
 		err = e.WriteObject(val)
 		return w.Buf.Bytes(), err
+	case 3:
+		// a buffering destination (it has Flush, as a gzip or TLS writer has): what the encoder does with it
+		// must not replace the verdict on the value
+		var buf bytes.Buffer
+		bw := bufio.NewWriter(&buf)
+		e := hessian.NewEncoder(bw, nameMap)
+		err = e.WriteObject(val)
+		bw.Flush()
+		return buf.Bytes(), err
+	case 4:
+		var buf bytes.Buffer
+		bw := bufio.NewWriter(&buf)
+		err = hessian.NewSerializer(nil, nameMap).WriteTo(bw, val)
+		bw.Flush()
+		return buf.Bytes(), err
 	default:
 		s := hessian.NewSerializer(nil, nameMap)
 		return s.ToBytes(val)
 	}
 }
 
-var entryNames = []string{"ToBytes", "Encoder.WriteObject", "Serializer.ToBytes"}
+var entryNames = []string{"ToBytes", "Encoder.WriteObject", "Serializer.ToBytes", "Encoder.WriteObject to a bufio.Writer", "Serializer.WriteTo to a bufio.Writer"}
+
+// deepPositions: the unsupported value far below the top of the message (whatever an encoder does to the
+// error on its way up - wrapping, bounding, summarising - it must still arrive)
+func deepPositions() []badPos {
+	nest := func(n int, mixed bool) func(b interface{}) interface{} {
+		return func(b interface{}) interface{} {
+			v := b
+			for i := 0; i < n; i++ {
+				switch {
+				case !mixed || i%3 == 0:
+					v = []interface{}{int32(i), v}
+				case i%3 == 1:
+					v = map[string]interface{}{"k": v}
+				default:
+					v = &Carrier{A: int32(i), X: v, Z: "z"}
+				}
+			}
+			return v
+		}
+	}
+	return []badPos{
+		{"nested15-lists", false, nest(15, false)},
+		{"nested16-lists", false, nest(16, false)},
+		{"nested17-mixed", false, nest(17, true)},
+		{"nested33-mixed", false, nest(33, true)},
+		{"nested70-lists", false, nest(70, false)},
+		{"nested300-mixed", false, nest(300, true)},
+	}
+}
 
 func (c13) Run(c Case, env *Env) Result {
 	var res Result
@@ -317,6 +367,21 @@ func (c13) Run(c Case, env *Env) Result {
 				continue
 			}
 			one(j, k.name, p.name, entry, p.build(k.make()), p.build(int32(42)))
+		}
+	case "deep":
+		k := ks[c.N]
+		all := append(deepPositions(), ps...)
+		ne := len(entryNames)
+		for j := lo; j < hi; j++ {
+			p := all[j/ne]
+			entry := j % ne
+			if p.keyOnly && !k.hashable {
+				continue
+			}
+			if j/ne >= len(deepPositions()) && entry < 3 {
+				continue // the shallow positions through the first three entry points are the "bad" cases
+			}
+			one(j, k.name, p.name, entry, p.build(k.make()), nil)
 		}
 	case "typed":
 		ch := make(chan int)
